@@ -15,7 +15,7 @@ common.import_repo()
 from autobean_refactor import models  # noqa: E402
 
 INITS = ['1', '1+2', '3-1-1', '2*3', '6/2/3', '-2', '(1)', '(1+2)*3', '1+2*3', '-(1+2)', '+-1']
-OPERANDS = '{<<"int",2>>,<<"int",-3>>,<<"int",0>>,<<"expr","1+2">>,<<"expr","2*3">>,<<"expr","-2">>,<<"expr","1">>,<<"neg","1+2">>}'
+OPERANDS = '{<<"int",2>>,<<"int",-3>>,<<"int",0>>,<<"expr","1+2">>,<<"expr","2*3">>,<<"expr","-2">>,<<"expr","1">>,<<"neg","1+2">>,<<"self","">>}'
 HOSTS = {
     'free': None,
     'posting': ('2000-01-01 *\n    Assets:A  ', ' USD {2 EUR} @ 3 CAD ; ic\n    Assets:B\n'),
@@ -89,6 +89,8 @@ def replay(beh: list[dict], host: str, variant: int, attached_operand: bool) -> 
         bdoc = None
         if op in ('u+', 'u-', 'leaf'):
             b = None
+        elif o[0] == 'self':
+            b = a
         elif o[0] == 'int':
             b = o[1] if (k + variant) % 2 else decimal.Decimal(o[1])
         elif o[0] == 'neg':
@@ -196,6 +198,18 @@ def replay(beh: list[dict], host: str, variant: int, attached_operand: bool) -> 
                 bad = tree.wellformed(doc)
                 if bad:
                     findings.append(('tree', fp, '; '.join(bad[:2])))
+        if form == 'inplace' and isinstance(b, models.NumberExpr) and b is not a and bdoc is None and op not in ('leaf',):
+            # the free-standing operand was consumed by the in-place operator: it cannot be put anywhere again
+            d2 = tree.parse('2000-01-01 *\n    Assets:Z  9 USD\n')
+            t2 = tree.text_of(d2)
+            try:
+                d2.raw_directives[0].raw_postings[0].raw_number = b
+                findings.append(('refusal', fp, f'an operand consumed by in-place {op} was accepted again elsewhere: {t2!r} -> {tree.text_of(d2)!r}'))
+            except ValueError:
+                if tree.text_of(d2) != t2:
+                    findings.append(('refusal', fp, f'refused reuse of a consumed operand changed the document: {tree.text_of(d2)!r}'))
+            except Exception as e2:  # noqa: BLE001
+                findings.append(('refusal', fp, f'reuse of a consumed operand raised {type(e2).__name__}: {e2}'))
         for obj, txt, what in frozen:
             if tree.text_of(obj) != txt:
                 findings.append(('operand', fp, f'{what} of an earlier non-in-place operation changed later: {txt!r} -> {tree.text_of(obj)!r}'))
